@@ -179,6 +179,27 @@ let run_auth fl toks impl =
      | _ -> "NOIMPL")
   | _ -> "badcase"
 
+(* ------------------------------------------------------------ literal tables of the model *)
+let kind_of (dec : n list -> n list option) : string =
+  let probe k = bytes_of_string (String.sub "abcdefghijklmnopqrstuvwxyz" 0 k) in
+  let ne k = match dec (probe k) with Some v when v <> [] -> "1" | _ -> "0" in
+  let shape = match dec (probe 4) with
+    | None | Some [] -> "-"
+    | Some v -> let s = string_of_bytes v in
+      if s = "?" then "o"
+      else if String.length s > 0 && (let ok = ref true in String.iter (fun c -> if c < '0' || c > '9' then ok := false) s; !ok) then "d"
+      else "r" in
+  String.concat "" (List.map ne [0; 3; 4; 5; 16]) ^ shape
+let run_lits () =
+  let ids = List.sort compare (List.map int_of_n ident_types) in
+  let t1 = List.concat (List.init 256 (fun t -> match tier1 (n_of_int t) with
+      | Some (name, dec) -> [Printf.sprintf "%d:%s:%s" t (hexkey name) (kind_of dec)] | None -> [])) in
+  let t2 = List.concat (List.map (fun vid -> List.concat (List.init 256 (fun vt ->
+      match tier2 (n_of_int vid) (n_of_int vt) with
+      | Some (name, dec) -> [Printf.sprintf "%010d:%03d:%s:%s" vid vt (hexkey name) (kind_of dec)] | None -> []))) [9; 311; 32473]) in
+  "ident=" ^ String.concat "," (List.map string_of_int ids) ^ " tier1=" ^ String.concat "," t1 ^
+  " tier2=" ^ String.concat "," (List.sort compare t2)
+
 let () =
   let lines = read_lines Sys.argv.(1) in
   let impl = if Array.length Sys.argv > 2 && Sys.argv.(2) <> "-" then read_lines Sys.argv.(2) else [] in
@@ -191,6 +212,7 @@ let () =
            | "reply" :: t -> run_reply fl t
            | "coa" :: t -> run_coa fl t il
            | "auth" :: t -> run_auth fl t il
+           | "lits" :: _ -> run_lits ()
            | _ -> "badline")
         with e -> "MODELERR " ^ Printexc.to_string e in
       print_endline r) lines
